@@ -18,6 +18,12 @@
 (*           not stored its result yet: [on, key, val, allowed]            *)
 (*   cur     key -> value of the last SetCursor that succeeded (-1 none):  *)
 (*           the register the property talks about                         *)
+(*   fails   SetCursor calls that failed after their record had been       *)
+(*           appended to the leader's log: [key, val, off]; the record is   *)
+(*           above the HW until a later commit passes it                    *)
+(*   cln     a clean of the cursors partition between its two steps:        *)
+(*           [on, dead, n] = offsets the compaction decided to remove and   *)
+(*           the number of segments when it took its snapshot               *)
 (*   obs     result of the last call [a, ret, err]                         *)
 (*                                                                         *)
 (* SetCursor: under the manager's lock, publish (AckPolicy ALL) then add   *)
@@ -37,11 +43,12 @@ CONSTANTS Cap,        \* capacity of the LRU
           SegCap,     \* entries per segment of the cursors partition
           FixStale
 
-VARIABLES clog, segs, next, hw, cache, cacheOn, paused, pend, cur, gen, obs
-vars == <<clog, segs, next, hw, cache, cacheOn, paused, pend, cur, gen, obs>>
+VARIABLES clog, segs, next, hw, cache, cacheOn, paused, pend, cur, gen, fails, cln, obs
+vars == <<clog, segs, next, hw, cache, cacheOn, paused, pend, cur, gen, fails, cln, obs>>
 
 Keys == {"k1", "k2", "k3"}
 Clients == {"c1", "c2"}
+NoCln == [on |-> FALSE, dead |-> {}, n |-> 0]
 NoPend == [on |-> FALSE, key |-> "k1", val |-> -1, allowed |-> {}, gen |-> 0]
 
 Last(s) == s[Len(s)]
@@ -73,6 +80,18 @@ Published(k, v) ==
 Scan(k) == LET I == {i \in 1..Len(clog) : clog[i].key = k /\ clog[i].off <= hw}
            IN IF hw = -1 \/ clog = <<>> \/ I = {} THEN -1 ELSE clog[MaxS(I)].val
 
+\* While a clean is between its two steps the segments it has rewritten are marked
+\* replaced but still listed, and the reverse reader of the scan does not recover
+\* from that (the forward reader retries until the swap): the scan succeeds only if
+\* it starts in a segment that was not rewritten and finds the key before it has to
+\* step down into a rewritten one; otherwise the fetch fails with Internal.
+\* (Before fix 7e... a scan starting inside a rewritten segment read it as empty and
+\* could answer "no cursor" (-1), which was then cached.)
+ScanErr(k) ==
+  /\ cln.on /\ cln.n >= 2 /\ cln.n <= Len(segs) /\ hw # -1 /\ clog # <<>>
+  /\ ~\E i \in 1..Len(clog) : clog[i].key = k /\ clog[i].off <= hw /\ clog[i].off >= segs[cln.n]
+ScanVal(k) == Scan(k)
+
 \* compaction: in every segment but the active one, an entry is removed when a
 \* later committed entry has the same key; emptied segments disappear
 Compacted ==
@@ -81,6 +100,19 @@ Compacted ==
                    clog[j].key = r.key /\ clog[j].off > r.off /\ clog[j].off <= hw
       nl == SelectSeq(clog, LAMBDA r : ~dead(r))
       keep == {k \in 1..n : k = n \/ SegRecs(nl, segs, k) # <<>>}
+  IN [clog |-> nl, segs |-> SelectSeq(segs, LAMBDA b : \E k \in keep : segs[k] = b)]
+
+\* what a compaction that starts now removes
+CompactDead ==
+  {clog[i].off : i \in {i \in 1..Len(clog) :
+      /\ clog[i].off < segs[Len(segs)]
+      /\ \E j \in 1..Len(clog) : clog[j].key = clog[i].key /\ clog[j].off > clog[i].off /\ clog[j].off <= hw}}
+
+\* the swap at the end of a clean that took its snapshot when there were n segments
+\* and decided to remove `dead`: segments rolled since then are kept as they are
+Swapped(dead, n) ==
+  LET nl == SelectSeq(clog, LAMBDA r : r.off \notin dead)
+      keep == {k \in 1..Len(segs) : k >= n \/ SegRecs(nl, segs, k) # <<>>}
   IN [clog |-> nl, segs |-> SelectSeq(segs, LAMBDA b : \E k \in keep : segs[k] = b)]
 
 \* the partition is resumed by whoever needs it; this server becomes its leader
@@ -95,12 +127,21 @@ Init ==
   /\ cache = <<>> /\ cacheOn \in BOOLEAN /\ paused = FALSE
   /\ pend = [c \in Clients |-> NoPend]
   /\ cur = [k \in Keys |-> -1]
-  /\ gen = 0
+  /\ gen = 0 /\ fails = {} /\ cln = NoCln
   /\ obs = [a |-> "Open", ret |-> -1, err |-> ""]
 
-\* every pending Fetch of key k may return v from now on
-Note(k, v) == [c \in Clients |-> IF pend[c].on /\ pend[c].key = k
-                                 THEN [pend[c] EXCEPT !.allowed = @ \cup {v}] ELSE pend[c]]
+\* values of failed SetCursor calls of key k whose record is committed (as of HW h)
+Undet(k, h) == {f.val : f \in {g \in fails : g.key = k /\ g.off <= h}}
+
+\* a successful SetCursor(k, v) commits everything before it: every pending Fetch of
+\* key k may return v from now on, and every pending Fetch may return the value of a
+\* failed SetCursor of its key that has just been committed
+Note(k, v) == [c \in Clients |->
+  IF ~pend[c].on THEN pend[c]
+  ELSE [pend[c] EXCEPT !.allowed = @ \cup (IF pend[c].key = k THEN {v} ELSE {}) \cup Undet(pend[c].key, next)]]
+
+\* what a Fetch of key k invoked now may return if nothing else happens
+AllowedNow(k) == {cur[k]} \cup Undet(k, hw)
 
 DoSet(k, v) ==
   LET p == Published(k, v) IN
@@ -110,23 +151,38 @@ DoSet(k, v) ==
   /\ gen' = gen + (IF paused THEN 2 ELSE 1)     \* the purge on resume counts as a write
   /\ cur' = [cur EXCEPT ![k] = v]
   /\ pend' = Note(k, v)
+  /\ fails' = {f \in fails : f.key # k}       \* superseded; the others are committed now
   /\ obs' = [a |-> "Set", ret |-> v, err |-> ""]
-  /\ UNCHANGED cacheOn
+  /\ UNCHANGED <<cacheOn, cln>>
+
+\* a SetCursor whose publish is appended to the leader's log but cannot be committed
+\* (ISR below the minimum ISR size / follower not acknowledging): it fails with a
+\* deadline error, the record stays above the HW, the cache is not touched
+DoSetFail(k, v) ==
+  LET p == Published(k, v) IN
+  /\ ~paused
+  /\ clog' = p.clog /\ segs' = p.segs /\ next' = next + 1
+  /\ fails' = fails \cup {[key |-> k, val |-> v, off |-> next]}
+  /\ obs' = [a |-> "SetFail", ret |-> v, err |-> "Internal"]
+  /\ UNCHANGED <<hw, cache, cacheOn, paused, pend, cur, gen, cln>>
 
 \* a complete FetchCursor with no other call in between
 DoFetch(k) ==
   IF cacheOn /\ Has(cache, k) THEN
     /\ cache' = CacheTouch(cache, k)
     /\ obs' = [a |-> "Fetch", ret |-> ValOf(cache, k), err |-> ""]
-    /\ UNCHANGED <<clog, segs, next, hw, cacheOn, paused, pend, cur, gen>>
+    /\ UNCHANGED <<clog, segs, next, hw, cacheOn, paused, pend, cur, gen, fails, cln>>
+  ELSE IF ScanErr(k) THEN
+    /\ obs' = [a |-> "Fetch", ret |-> -1, err |-> "Internal"]
+    /\ UNCHANGED <<clog, segs, next, hw, cache, cacheOn, paused, pend, cur, gen, fails, cln>>
   ELSE
     \* (the scan resumes a paused partition; the purge that follows invalidates
     \* the value this very call has read)
-    /\ cache' = IF FixStale /\ paused THEN <<>> ELSE CacheAdd(Resumed(cache), k, Scan(k))
+    /\ cache' = IF FixStale /\ paused THEN <<>> ELSE CacheAdd(Resumed(cache), k, ScanVal(k))
     /\ paused' = FALSE
     /\ gen' = IF paused THEN gen + 1 ELSE gen
-    /\ obs' = [a |-> "Fetch", ret |-> Scan(k), err |-> ""]
-    /\ UNCHANGED <<clog, segs, next, hw, cacheOn, pend, cur>>
+    /\ obs' = [a |-> "Fetch", ret |-> ScanVal(k), err |-> ""]
+    /\ UNCHANGED <<clog, segs, next, hw, cacheOn, pend, cur, fails, cln>>
 
 \* FetchCursor of client c up to the end of its scan (or to its end on a cache hit)
 DoFetchBegin(c, k) ==
@@ -134,14 +190,17 @@ DoFetchBegin(c, k) ==
   /\ IF cacheOn /\ Has(cache, k) THEN
        /\ cache' = CacheTouch(cache, k)
        /\ obs' = [a |-> "FetchBegin", ret |-> ValOf(cache, k), err |-> "done"]
-       /\ UNCHANGED <<clog, segs, next, hw, cacheOn, paused, pend, cur, gen>>
+       /\ UNCHANGED <<clog, segs, next, hw, cacheOn, paused, pend, cur, gen, fails, cln>>
+     ELSE IF ScanErr(k) THEN
+       /\ obs' = [a |-> "FetchBegin", ret |-> -1, err |-> "Internal"]
+       /\ UNCHANGED <<clog, segs, next, hw, cache, cacheOn, paused, pend, cur, gen, fails, cln>>
      ELSE
        /\ cache' = Resumed(cache)
        /\ paused' = FALSE
-       /\ pend' = [pend EXCEPT ![c] = [on |-> TRUE, key |-> k, val |-> Scan(k), allowed |-> {cur[k]}, gen |-> gen]]
+       /\ pend' = [pend EXCEPT ![c] = [on |-> TRUE, key |-> k, val |-> ScanVal(k), allowed |-> AllowedNow(k), gen |-> gen]]
        /\ gen' = IF paused THEN gen + 1 ELSE gen
        /\ obs' = [a |-> "FetchBegin", ret |-> -1, err |-> "pending"]
-       /\ UNCHANGED <<clog, segs, next, hw, cacheOn, cur>>
+       /\ UNCHANGED <<clog, segs, next, hw, cacheOn, cur, fails, cln>>
 
 \* ... and its end: the scanned value is stored in the cache and returned
 DoFetchEnd(c) ==
@@ -150,42 +209,66 @@ DoFetchEnd(c) ==
               ELSE CacheAdd(cache, pend[c].key, pend[c].val)
   /\ pend' = [pend EXCEPT ![c] = NoPend]
   /\ obs' = [a |-> "FetchEnd", ret |-> pend[c].val, err |-> ""]
-  /\ UNCHANGED <<clog, segs, next, hw, cacheOn, paused, cur, gen>>
+  /\ UNCHANGED <<clog, segs, next, hw, cacheOn, paused, cur, gen, fails, cln>>
 
 DoClean ==
-  /\ ~paused
+  /\ ~paused /\ ~cln.on
   /\ clog' = Compacted.clog /\ segs' = Compacted.segs
   /\ obs' = [a |-> "Clean", ret |-> -1, err |-> ""]
-  /\ UNCHANGED <<next, hw, cache, cacheOn, paused, pend, cur, gen>>
+  /\ UNCHANGED <<next, hw, cache, cacheOn, paused, pend, cur, gen, fails, cln>>
+
+\* the clean in its two steps: the compaction works on a snapshot of the segment
+\* list without the log mutex; appends and segment rolls go on meanwhile
+DoCleanBegin ==
+  /\ ~paused /\ ~cln.on
+  /\ cln' = [on |-> TRUE, dead |-> CompactDead, n |-> Len(segs)]
+  /\ obs' = [a |-> "CleanBegin", ret |-> -1, err |-> ""]
+  /\ UNCHANGED <<clog, segs, next, hw, cache, cacheOn, paused, pend, cur, gen, fails>>
+
+\* ... then the cleaned segments are swapped in and the segments rolled meanwhile
+\* are put behind them
+DoCleanEnd ==
+  /\ cln.on
+  /\ clog' = Swapped(cln.dead, cln.n).clog /\ segs' = Swapped(cln.dead, cln.n).segs
+  /\ cln' = NoCln
+  /\ obs' = [a |-> "CleanEnd", ret |-> -1, err |-> ""]
+  /\ UNCHANGED <<next, hw, cache, cacheOn, paused, pend, cur, gen, fails>>
 
 DoPause ==
-  /\ ~paused
+  /\ ~paused /\ ~cln.on /\ hw = next - 1
   /\ paused' = TRUE
   /\ obs' = [a |-> "Pause", ret |-> -1, err |-> ""]
-  /\ UNCHANGED <<clog, segs, next, hw, cache, cacheOn, pend, cur, gen>>
+  /\ UNCHANGED <<clog, segs, next, hw, cache, cacheOn, pend, cur, gen, fails, cln>>
 
 \* server restart over the same data directory (no call in flight)
 DoRestart ==
   /\ \A c \in Clients : ~pend[c].on
+  /\ ~cln.on /\ hw = next - 1
   /\ cache' = <<>> /\ gen' = 0
   /\ obs' = [a |-> "Restart", ret |-> -1, err |-> ""]
-  /\ UNCHANGED <<clog, segs, next, hw, cacheOn, paused, pend, cur>>
+  /\ UNCHANGED <<clog, segs, next, hw, cacheOn, paused, pend, cur, fails, cln>>
 
 -----------------------------------------------------------------------------
 (* What property C11 demands *)
 
-\* a SetCursor that returned success is the latest one of its key
-P_Set(k, v) == obs'.err = "" => cur'[k] = v
+\* a SetCursor that returned success is the latest one of its key; one that failed
+\* leaves the register alone
+P_Set(k, v) == IF obs'.err = "" THEN cur'[k] = v ELSE cur' = cur
+
+\* whether a SetCursor that failed took effect is undetermined once its record has
+\* been committed after all (never before)
+Maybe(k) == Undet(k, hw')
 
 \* a FetchCursor that ran alone returns the last stored value (-1 if none)
-P_Fetch(k) == obs'.err = "" /\ obs'.ret = cur[k]
+P_Fetch(k) == obs'.err = "" /\ obs'.ret \in {cur[k]} \cup Maybe(k)
 
 \* a FetchCursor that completed at once (cache hit) likewise
-P_FetchBegin(c, k) == obs'.err = "done" => obs'.ret = cur[k]
+P_FetchBegin(c, k) == /\ obs'.err \in {"done", "pending"}
+                      /\ obs'.err = "done" => obs'.ret \in {cur[k]} \cup Maybe(k)
 
 \* a FetchCursor that overlapped SetCursor calls returns the value stored
 \* before it was invoked or one stored while it ran
-P_FetchEnd(c) == obs'.err = "" /\ obs'.ret \in pend[c].allowed
+P_FetchEnd(c) == obs'.err = "" /\ obs'.ret \in pend[c].allowed \cup Maybe(pend[c].key)
 
 \* the register itself changes only by successful SetCursor calls
 P_Other == cur' = cur
